@@ -15,10 +15,20 @@
     the split fields for ALL byte pairs;  `split_fields_roundtrip` composes them with the encoder
   * `id_string_roundtrip`     every id string, every encoding, every length
   * `dispatch_table`, `dispatch_by_type_byte`   the type byte alone selects the kind
-  * `*_counterexample`        the pinned source (Variant.asShipped) violates the property:
-    accuracy above 63, rate unit, modifier unit, id-string type code, BCD+ and 6-bit id strings
+  * `gen_*`                   the bit expressions of pyipmi/sdr.py and fields.py are re-translated from
+    the AST of the working tree on every run (`Gen.SdrExpr`, harness/translate/sdrexpr.py):
+    `gen_parseFull_eq` … `gen_parseOem_eq`, `gen_idString_eq`, `gen_unpack6_eq` say that the model
+    (`Variant.intended`) computes every attribute with exactly the generated expression, so the
+    theorems above are theorems about the expressions the code contains today; `gen_m_reassembled`,
+    `gen_b_reassembled`, `gen_accuracy_reassembled`, `gen_exponents_signed`, `gen_byte_fields`,
+    `gen_manufacturer_id` restate the split-field facts for the generated definitions;
+    `gen_layouts`, `gen_body_offsets`, `gen_flag_lists` pin the order / sizes of the pops and the flag names
+  * `*_counterexample`        the ORIGINAL pinned source (Variant.asShipped, a frozen variant kept as
+    documentation; /repo has been repaired since) violates the property: accuracy above 63, rate unit,
+    modifier unit, id-string type code, BCD+ and 6-bit id strings
 -/
 import PyIpmi.Lemmas.SdrParse
+import PyIpmi.Gen.SdrExpr
 namespace PyIpmi.Props.C16
 open PyIpmi PyIpmi.SdrParse PyIpmi.Spec.Sdr
 
@@ -150,6 +160,289 @@ theorem dispatch_by_type_byte (v : Variant) (bs : List Nat) (hb : ∀ b ∈ bs, 
     | [_, _], h => simp at h
     | [_, _, _], h => simp at h
     | [_, _, _, _], h => simp at h
+
+/-! ### the generated expressions are the model's expressions -/
+
+/-- `_convert_complement` as translated from today's source is the model's. -/
+theorem gen_convertComplement_eq (value size : Nat) :
+    Gen.SdrExpr.convertComplement value size = Sensor.convertComplement value size := by
+  have h : ((size : Int) - 1).toNat = size - 1 := by omega
+  simp only [Gen.SdrExpr.convertComplement, Gen.SdrExpr.cc_value, Sensor.convertComplement, h]
+
+/-- The model's result of a parse function, given the attribute list before the id string. -/
+def withIdThen (fs : Fields) (rest : List Nat) (extra : Fields) : Outcome (Fields × Fields) :=
+  match withId Variant.intended fs rest with
+  | .ok all => .ok (all, extra)
+  | .decodingError => .decodingError
+  | .pyError n => .pyError n
+  | _ => .pyError "?"
+
+theorem gen_parseFull_eq
+    (oid olun num eid einst ini cap st et am0 am1 dm0 dm1 rm0 rm1 u1 u2 u3 lin m mtol b bacc accx rb ac
+     nom nmax nmin smax smin unr ucr unc lnr lcr lnc ph nh r0 r1 oem : Nat) (rest : List Nat) :
+    parseFull Variant.intended
+      (oid :: olun :: num :: eid :: einst :: ini :: cap :: st :: et :: am0 :: am1 :: dm0 :: dm1 ::
+       rm0 :: rm1 :: u1 :: u2 :: u3 :: lin :: m :: mtol :: b :: bacc :: accx :: rb :: ac ::
+       nom :: nmax :: nmin :: smax :: smin :: unr :: ucr :: unc :: lnr :: lcr :: lnc :: ph :: nh ::
+       r0 :: r1 :: oem :: rest) =
+    withIdThen
+      [("owner_id", .nat oid), ("owner_lun", .nat (Gen.SdrExpr.key_owner_lun olun)), ("number", .nat num),
+       ("entity_id", .nat eid), ("entity_instance", .nat einst),
+       ("initialization", .list (flagsOf (Gen.SdrExpr.full_initialization_flags.map Prod.fst) ini)),
+       ("sensor_type_code", .nat st), ("event_reading_type_code", .nat et),
+       ("assertion_mask", .nat (leOr [am0, am1])), ("deassertion_mask", .nat (leOr [dm0, dm1])),
+       ("discrete_reading_mask", .nat (leOr [rm0, rm1])),
+       ("units_1", .nat u1), ("units_2", .nat u2), ("units_3", .nat u3),
+       ("analog_data_format", .nat (Gen.SdrExpr.full_analog_data_format u1)),
+       ("rate_unit", .nat (Gen.SdrExpr.full_rate_unit u1)),
+       ("modifier_unit", .nat (Gen.SdrExpr.full_modifier_unit u1)),
+       ("percentage", .nat (Gen.SdrExpr.full_percentage u1)),
+       ("linearization", .nat (Gen.SdrExpr.full_linearization lin)),
+       ("m", .int (Gen.SdrExpr.full_m_2 m mtol)),
+       ("tolerance", .nat (Gen.SdrExpr.full_tolerance mtol)),
+       ("b", .int (Gen.SdrExpr.full_b_2 b bacc)),
+       ("accuracy", .nat (Gen.SdrExpr.full_accuracy bacc accx)),
+       ("accuracy_exp", .nat (Gen.SdrExpr.full_accuracy_exp accx)),
+       ("k2", .int (Gen.SdrExpr.full_k2_2 rb)),
+       ("k1", .int (Gen.SdrExpr.full_k1_2 rb)),
+       ("analog_characteristic", .list (flagsOf (Gen.SdrExpr.full_analog_characteristic_flags.map Prod.fst) ac)),
+       ("nominal_reading", .nat nom), ("normal_maximum", .nat nmax), ("normal_minimum", .nat nmin),
+       ("sensor_maximum_reading", .nat smax), ("sensor_minimum_reading", .nat smin),
+       ("threshold.unr", .nat unr), ("threshold.ucr", .nat ucr), ("threshold.unc", .nat unc),
+       ("threshold.lnr", .nat lnr), ("threshold.lcr", .nat lcr), ("threshold.lnc", .nat lnc),
+       ("hysteresis.positive_going", .nat ph), ("hysteresis.negative_going", .nat nh),
+       ("reserved", .nat (leOr [r0, r1])), ("oem", .nat oem)]
+      rest [("capabilities", .list (capabilitiesOf cap))] := by
+  simp only [Gen.SdrExpr.full_m_2, Gen.SdrExpr.full_b_2, Gen.SdrExpr.full_k2_2, Gen.SdrExpr.full_k1_2,
+    gen_convertComplement_eq]
+  rfl
+
+theorem gen_parseCompact_eq
+    (oid olun num eid einst ini cap st et am0 am1 dm0 dm1 rm0 rm1 u1 u2 u3 rs0 rs1 ph nh r0 r1 r2 oem : Nat)
+    (rest : List Nat) :
+    parseCompact Variant.intended
+      (oid :: olun :: num :: eid :: einst :: ini :: cap :: st :: et :: am0 :: am1 :: dm0 :: dm1 ::
+       rm0 :: rm1 :: u1 :: u2 :: u3 :: rs0 :: rs1 :: ph :: nh :: r0 :: r1 :: r2 :: oem :: rest) =
+    withIdThen
+      [("owner_id", .nat oid), ("owner_lun", .nat (Gen.SdrExpr.key_owner_lun olun)), ("number", .nat num),
+       ("entity_id", .nat eid), ("entity_instance", .nat einst),
+       ("sensor_initialization", .nat ini), ("capabilities", .nat cap),
+       ("sensor_type_code", .nat st), ("event_reading_type_code", .nat et),
+       ("assertion_mask", .nat (leOr [am0, am1])), ("deassertion_mask", .nat (leOr [dm0, dm1])),
+       ("discrete_reading_mask", .nat (leOr [rm0, rm1])),
+       ("units_1", .nat u1), ("units_2", .nat u2), ("units_3", .nat u3),
+       ("record_sharing", .nat (leOr [rs0, rs1])),
+       ("positive_going_hysteresis", .nat ph), ("negative_going_hysteresis", .nat nh),
+       ("reserved", .nat (leOr [r0, r1, r2])), ("oem", .nat oem)] rest [] := rfl
+
+theorem gen_parseEventOnly_eq (oid olun num eid einst st et rs0 rs1 r0 oem : Nat) (rest : List Nat) :
+    parseEventOnly Variant.intended (oid :: olun :: num :: eid :: einst :: st :: et :: rs0 :: rs1 :: r0 :: oem :: rest) =
+    withIdThen
+      [("owner_id", .nat oid), ("owner_lun", .nat (Gen.SdrExpr.key_owner_lun olun)), ("number", .nat num),
+       ("entity_id", .nat eid), ("entity_instance", .nat einst),
+       ("sensor_type", .nat st), ("event_reading_type_code", .nat et),
+       ("record_sharing", .nat (leOr [rs0, rs1])),
+       ("reserved", .nat r0), ("oem", .nat oem)] rest [] := rfl
+
+theorem gen_parseFruLocator_eq (aa fid lp ch r0 dt dtm eid einst oem : Nat) (rest : List Nat) :
+    parseFruLocator Variant.intended (aa :: fid :: lp :: ch :: r0 :: dt :: dtm :: eid :: einst :: oem :: rest) =
+    withIdThen
+      [("device_access_address", .nat (Gen.SdrExpr.fru_device_access_address aa)), ("fru_device_id", .nat fid),
+       ("logical_physical", .nat lp), ("channel_number", .nat ch),
+       ("reserved", .nat r0),
+       ("device_type", .nat dt), ("device_type_modifier", .nat dtm),
+       ("entity_id", .nat eid), ("entity_instance", .nat einst),
+       ("oem", .nat oem)] rest [] := rfl
+
+theorem gen_parseMcLocator_eq (sa ch psn dc r0 r1 r2 eid einst oem : Nat) (rest : List Nat) :
+    parseMcLocator Variant.intended (sa :: ch :: psn :: dc :: r0 :: r1 :: r2 :: eid :: einst :: oem :: rest) =
+    withIdThen
+      [("device_slave_address", .nat (Gen.SdrExpr.mc_device_slave_address sa)),
+       ("channel_number", .nat (Gen.SdrExpr.mc_channel_number ch)),
+       ("power_state_notification", .nat psn),
+       ("device_capabilities", .nat dc),
+       ("reserved", .nat (leOr [r0, r1, r2])),
+       ("entity_id", .nat eid), ("entity_instance", .nat einst),
+       ("oem", .nat oem)] rest [("global_initialization", .nat Gen.SdrExpr.mc_global_initialization)] := rfl
+
+theorem gen_parseMcConfirmation_eq (sa did ch f1 f2 iv m0 m1 m2 p0 p1 : Nat) (rest : List Nat) :
+    parseMcConfirmation (sa :: did :: ch :: f1 :: f2 :: iv :: m0 :: m1 :: m2 :: p0 :: p1 :: rest) =
+    if rest.length < 16 then .decodingError
+    else .ok ([("device_slave_address", .nat (Gen.SdrExpr.conf_device_slave_address sa)), ("device_id", .nat did),
+            ("channel_number", .nat ch),
+            ("firmware_revision_1", .nat f1), ("firmware_revision_2", .nat f2),
+            ("ipmi_version", .nat iv),
+            ("manufacturer_id", .nat (Gen.SdrExpr.conf_manufacturer_id (leOr [m0, m1, m2]))),
+            ("product_id", .nat (leOr [p0, p1])),
+            ("device_guid", .nat (leOr (rest.take 16)))], []) := rfl
+
+theorem gen_parseOem_eq (oid olun num : Nat) (rest : List Nat) :
+    parseOem (oid :: olun :: num :: rest) =
+      .ok ([], [("owner_id", .nat oid), ("owner_lun", .nat (Gen.SdrExpr.key_owner_lun olun)), ("number", .nat num)]) := rfl
+
+/-- Every `_from_data` skips the five header bytes (`ByteBuffer(data[5:])`), as `parseSdr` does. -/
+theorem gen_body_offsets :
+    [Gen.SdrExpr.full_body_offset, Gen.SdrExpr.compact_body_offset, Gen.SdrExpr.event_body_offset,
+     Gen.SdrExpr.fru_body_offset, Gen.SdrExpr.mc_body_offset, Gen.SdrExpr.conf_body_offset,
+     Gen.SdrExpr.oem_body_offset] = [5, 5, 5, 5, 5, 5, 5] := rfl
+
+/-- (helper) the decoder selected by `TypeLengthString._from_data` for a field type. -/
+def tlsDecoder (ft : Nat) : Nat :=
+  (List.lookup ft Gen.SdrExpr.tls_decoders).getD Gen.SdrExpr.tls_decoder_default
+
+theorem gen_idString_eq (tl : Nat) (rest : List Nat) :
+    idString Variant.intended (tl :: rest) =
+      (let data := ((tl :: rest).drop Gen.SdrExpr.id_field_lo).take (Gen.SdrExpr.id_field_hi tl - Gen.SdrExpr.id_field_lo)
+       let raw := (data.drop (Gen.SdrExpr.tls_raw_lo 0)).take (Gen.SdrExpr.tls_raw_hi 0 tl - Gen.SdrExpr.tls_raw_lo 0)
+       let str : Outcome (List Nat) :=
+         if tlsDecoder (Gen.SdrExpr.tls_field_type tl) = 1 then bcdDecode raw
+         else if tlsDecoder (Gen.SdrExpr.tls_field_type tl) = 2 then unpack6 false raw
+         else .ok raw
+       match str with
+       | .ok s => .ok [("device_id_string_type", .nat (Gen.SdrExpr.id_device_id_string_type tl)),
+                       ("device_id_string_length", .nat (Gen.SdrExpr.id_device_id_string_length tl)),
+                       ("device_id_string", .list s)]
+       | .decodingError => .decodingError
+       | .pyError n => .pyError n
+       | _ => .pyError "?") := by
+  have hd : ∀ x, tlsDecoder x = if x = 1 then 1 else if x = 2 then 2 else 0 := by
+    intro x
+    simp only [tlsDecoder, Gen.SdrExpr.tls_decoders, Gen.SdrExpr.tls_decoder_default, List.lookup]
+    split <;> rename_i h
+    · simp at h; simp [h]
+    · split <;> rename_i h2
+      · simp at h h2; simp [h2]
+      · simp at h h2; simp [h, h2]
+  have e1 : ∀ n : Nat, 1 + n - 0 = 1 + n := by intro n; omega
+  have e2 : ∀ n : Nat, 0 + 1 + n - (0 + 1) = n := by intro n; omega
+  simp only [hd, idString, Variant.intended, Gen.SdrExpr.id_field_lo, Gen.SdrExpr.id_field_hi,
+    Gen.SdrExpr.id_device_id_string_length, Gen.SdrExpr.id_device_id_string_type, Gen.SdrExpr.tls_raw_lo,
+    Gen.SdrExpr.tls_raw_hi, Gen.SdrExpr.tls_length, Gen.SdrExpr.tls_field_type, List.drop_zero, e1, e2,
+    Bool.false_eq_true, if_false, Nat.zero_add]
+  by_cases h1 : (tl >>> 6) &&& 0x3 = 1
+  · simp only [h1, if_true]; rfl
+  · by_cases h2 : (tl >>> 6) &&& 0x3 = 2
+    · have h21 : ¬ ((2 : Nat) = 1) := by decide
+      simp only [h2, h21, if_true, if_false]; rfl
+    · have h01 : ¬ ((0 : Nat) = 1) := by decide
+      have h02 : ¬ ((0 : Nat) = 2) := by decide
+      simp only [h1, h2, h01, h02, if_false]
+
+theorem gen_unpack6_eq :
+    (∀ d0, unpack6 false [d0] = .ok [Gen.SdrExpr.sixbit_char_0 d0]) ∧
+    (∀ d0 d1, unpack6 false [d0, d1] = .ok [Gen.SdrExpr.sixbit_char_0 d0, Gen.SdrExpr.sixbit_char_1 d0 d1]) ∧
+    (∀ d0 d1 d2 rest, unpack6 false (d0 :: d1 :: d2 :: rest) =
+      match unpack6 false rest with
+      | .ok cs => .ok (Gen.SdrExpr.sixbit_char_0 d0 :: Gen.SdrExpr.sixbit_char_1 d0 d1 ::
+                       Gen.SdrExpr.sixbit_char_2 d1 d2 :: Gen.SdrExpr.sixbit_char_3 d2 :: cs)
+      | e => e) ∧
+    Gen.SdrExpr.sixbit_group = 3 ∧ Gen.SdrExpr.sixbit_chars_need = [1, 2, 3, 3] :=
+  ⟨fun _ => rfl, fun _ _ => rfl, fun _ _ _ _ => rfl, rfl, rfl⟩
+
+/-! ### the split-field theorems, stated for the generated definitions -/
+
+theorem gen_m_reassembled (b25 b26 : Nat) (h1 : b25 < 256) (h2 : b26 < 256) :
+    Gen.SdrExpr.full_m_2 b25 b26 = sint 10 (b25 + 256 * (b26 / 64)) := by
+  simp only [Gen.SdrExpr.full_m_2, Gen.SdrExpr.full_m_1, gen_convertComplement_eq]
+  exact m_reassembled b25 b26 h1 h2
+
+theorem gen_b_reassembled (b27 b28 : Nat) (h1 : b27 < 256) (h2 : b28 < 256) :
+    Gen.SdrExpr.full_b_2 b27 b28 = sint 10 (b27 + 256 * (b28 / 64)) := by
+  simp only [Gen.SdrExpr.full_b_2, Gen.SdrExpr.full_b_1, gen_convertComplement_eq]
+  exact b_reassembled b27 b28 h1 h2
+
+theorem gen_accuracy_reassembled (b28 b29 : Nat) (h2 : b29 < 256) :
+    Gen.SdrExpr.full_accuracy b28 b29 = b28 % 64 + 64 * (b29 / 16) ∧
+    Gen.SdrExpr.full_tolerance b28 = b28 % 64 :=
+  ⟨accuracy_reassembled b28 b29 h2, and_3f b28⟩
+
+theorem gen_exponents_signed (b30 : Nat) (h : b30 < 256) :
+    Gen.SdrExpr.full_k2_2 b30 = sint 4 (b30 / 16) ∧ Gen.SdrExpr.full_k1_2 b30 = sint 4 (b30 % 16) := by
+  simp only [Gen.SdrExpr.full_k2_2, Gen.SdrExpr.full_k2_1, Gen.SdrExpr.full_k1_2, Gen.SdrExpr.full_k1_1,
+    gen_convertComplement_eq]
+  exact exponents_signed b30 h
+
+/-- (sweep over the 256 values of a byte) -/
+def genByteFieldsOk : Bool :=
+  Sensor.allLt 256 fun u =>
+    Gen.SdrExpr.full_analog_data_format u == u / 64 && Gen.SdrExpr.full_rate_unit u == u / 8 % 8 &&
+    Gen.SdrExpr.full_modifier_unit u == u / 2 % 4 && Gen.SdrExpr.full_percentage u == u % 2 &&
+    Gen.SdrExpr.full_linearization u == u % 128 && Gen.SdrExpr.full_accuracy_exp u == u / 4 % 4 &&
+    Gen.SdrExpr.key_owner_lun u == u % 4 &&
+    Gen.SdrExpr.id_device_id_string_type u == u / 64 && Gen.SdrExpr.id_device_id_string_length u == u % 64 &&
+    Gen.SdrExpr.tls_field_type u == u / 64 && Gen.SdrExpr.tls_length u == u % 64 &&
+    Gen.SdrExpr.fru_device_access_address u == u / 2 && Gen.SdrExpr.mc_device_slave_address u == u / 2 &&
+    Gen.SdrExpr.conf_device_slave_address u == u / 2 && Gen.SdrExpr.mc_channel_number u == u % 16
+
+theorem gen_byte_fields_sweep : genByteFieldsOk = true := by decide +kernel
+
+/-- Every single-byte sub-field as translated from today's source is the bit range the tables name:
+units byte 21 ([7:6] format, [5:3] rate, [2:1] modifier, [0] percentage), linearisation [6:0],
+accuracy exponent [3:2], owner LUN [1:0], id-string type [7:6] / length [5:0] (both places that
+read them), 7-bit addresses [7:1], channel [3:0] — for all 256 byte values. -/
+theorem gen_byte_fields (u : Nat) (h : u < 256) :
+    Gen.SdrExpr.full_analog_data_format u = u / 64 ∧ Gen.SdrExpr.full_rate_unit u = u / 8 % 8 ∧
+    Gen.SdrExpr.full_modifier_unit u = u / 2 % 4 ∧ Gen.SdrExpr.full_percentage u = u % 2 ∧
+    Gen.SdrExpr.full_linearization u = u % 128 ∧ Gen.SdrExpr.full_accuracy_exp u = u / 4 % 4 ∧
+    Gen.SdrExpr.key_owner_lun u = u % 4 ∧
+    Gen.SdrExpr.id_device_id_string_type u = u / 64 ∧ Gen.SdrExpr.id_device_id_string_length u = u % 64 ∧
+    Gen.SdrExpr.tls_field_type u = u / 64 ∧ Gen.SdrExpr.tls_length u = u % 64 ∧
+    Gen.SdrExpr.fru_device_access_address u = u / 2 ∧ Gen.SdrExpr.mc_device_slave_address u = u / 2 ∧
+    Gen.SdrExpr.conf_device_slave_address u = u / 2 ∧ Gen.SdrExpr.mc_channel_number u = u % 16 := by
+  have := Sensor.allLt_spec gen_byte_fields_sweep u h
+  simpa only [Bool.and_eq_true, beq_iff_eq, and_assoc] using this
+
+/-- The 20-bit manufacturer id of the confirmation record. -/
+theorem gen_manufacturer_id (x : Nat) : Gen.SdrExpr.conf_manufacturer_id x = x % 1048576 := and_fffff x
+
+/-- The order and sizes in which every `_from_data` (and its helpers) takes bytes from the buffer,
+as translated from today's source, are those of tables 43-1, -2, -3, -7, -8, -9, -12 (and the
+order of the patterns of `parseFull` … `parseOem`). -/
+theorem gen_layouts :
+    Gen.SdrExpr.key_layout = [("owner_id", 1), ("owner_lun", 1), ("number", 1)] ∧
+    Gen.SdrExpr.entity_layout = [("entity_id", 1), ("entity_instance", 1)] ∧
+    Gen.SdrExpr.full_layout =
+      [("_common_record_key", 3), ("_entity", 2), ("initialization", 1), ("_decode_capabilities", 1),
+       ("sensor_type_code", 1), ("event_reading_type_code", 1), ("assertion_mask", 2), ("deassertion_mask", 2),
+       ("discrete_reading_mask", 2), ("units_1", 1), ("units_2", 1), ("units_3", 1), ("linearization", 1),
+       ("m", 1), ("m_tol", 1), ("b", 1), ("b_acc", 1), ("acc_accexp", 1), ("rexp_bexp", 1),
+       ("analog_characteristics", 1), ("nominal_reading", 1), ("normal_maximum", 1), ("normal_minimum", 1),
+       ("sensor_maximum_reading", 1), ("sensor_minimum_reading", 1), ("threshold.unr", 1), ("threshold.ucr", 1),
+       ("threshold.unc", 1), ("threshold.lnr", 1), ("threshold.lcr", 1), ("threshold.lnc", 1),
+       ("hysteresis.positive_going", 1), ("hysteresis.negative_going", 1), ("reserved", 2), ("oem", 1),
+       ("_device_id_string", 0)] ∧
+    Gen.SdrExpr.compact_layout =
+      [("_common_record_key", 3), ("_entity", 2), ("sensor_initialization", 1), ("capabilities", 1),
+       ("sensor_type_code", 1), ("event_reading_type_code", 1), ("assertion_mask", 2), ("deassertion_mask", 2),
+       ("discrete_reading_mask", 2), ("units_1", 1), ("units_2", 1), ("units_3", 1), ("record_sharing", 2),
+       ("positive_going_hysteresis", 1), ("negative_going_hysteresis", 1), ("reserved", 3), ("oem", 1),
+       ("_device_id_string", 0)] ∧
+    Gen.SdrExpr.event_layout =
+      [("_common_record_key", 3), ("_entity", 2), ("sensor_type", 1), ("event_reading_type_code", 1),
+       ("record_sharing", 2), ("reserved", 1), ("oem", 1), ("_device_id_string", 0)] ∧
+    Gen.SdrExpr.fru_layout =
+      [("device_access_address", 1), ("fru_device_id", 1), ("logical_physical", 1), ("channel_number", 1),
+       ("reserved", 1), ("device_type", 1), ("device_type_modifier", 1), ("_entity", 2), ("oem", 1),
+       ("_device_id_string", 0)] ∧
+    Gen.SdrExpr.mc_layout =
+      [("device_slave_address", 1), ("channel_number", 1), ("power_state_notification", 1),
+       ("device_capabilities", 1), ("reserved", 3), ("_entity", 2), ("oem", 1), ("_device_id_string", 0)] ∧
+    Gen.SdrExpr.conf_layout =
+      [("device_slave_address", 1), ("device_id", 1), ("channel_number", 1), ("firmware_revision_1", 1),
+       ("firmware_revision_2", 1), ("ipmi_version", 1), ("manufacturer_id", 3), ("product_id", 2),
+       ("device_guid", 16)] ∧
+    Gen.SdrExpr.oem_layout = [("_common_record_key", 3)] ∧
+    Gen.SdrExpr.id_layout = [("device_id_string", 0)] :=
+  ⟨rfl, rfl, rfl, rfl, rfl, rfl, rfl, rfl, rfl, rfl⟩
+
+/-- The flag names of bytes 11 and 31 of the full sensor record, with their masks, in the order
+in which the code appends them. -/
+theorem gen_flag_lists :
+    Gen.SdrExpr.full_initialization_flags =
+      [(0x40, "scanning"), (0x20, "events"), (0x10, "thresholds"), (0x08, "hysteresis"), (0x04, "type"),
+       (0x02, "default_event_generation"), (0x01, "default_scanning")] ∧
+    Gen.SdrExpr.full_analog_characteristic_flags =
+      [(0x01, "nominal_reading"), (0x02, "normal_max"), (0x04, "normal_min")] := ⟨rfl, rfl⟩
 
 /-! ### the pinned source (as shipped) violates the property -/
 
